@@ -641,6 +641,7 @@ class C2Profile(ConfigBlock):
                         "CreateRemoteThread",
                         "NtQueueApcThread",
                         "NtQueueApcThread-s",
+                        "NtQueueApcThread_s",
                         "RtlCreateUserThread",
                     ]:
                         exec_options._enable(item.lower().replace("-", "_"), True)
